@@ -98,7 +98,7 @@ class Session:
 
     def call_fn(self, f, args):
         from .models.asyncrt import block_on
-        self.env.cur_op = f.name
+        self.env.begin_op(f.name)
         try:
             v = self.I.run_fn(f, args)
             if isinstance(v, Coroutine):
